@@ -83,9 +83,9 @@ type mapVal struct {
 func newVal() *mapVal {
 	return &mapVal{b: map[string]bool{}, s: map[string]string{}, n: map[string]int{}, nil: map[string]bool{}, d: map[string]string{}}
 }
-func (v *mapVal) Bool(p string) bool { return v.b[p] }
+func (v *mapVal) Bool(p string) bool  { return v.b[p] }
 func (v *mapVal) Str(p string) string { return v.s[p] }
-func (v *mapVal) Len(p string) int   { return v.n[p] }
+func (v *mapVal) Len(p string) int    { return v.n[p] }
 func (v *mapVal) Nil(p string) bool {
 	x, ok := v.nil[p]
 	return !ok || x
